@@ -25,10 +25,13 @@ from __future__ import annotations
 import itertools
 import json
 import multiprocessing as mp
+import os
 import random
 import time
 
 from . import known, tlc
+
+JOBS = int(os.environ.get("VERIF_JOBS") or os.cpu_count() or 4)   # every pool is sized by this
 
 NONE = [1114112]
 ALPHA12 = [97, 49, 47, 63, 35, 92, 64, 58, 91, 93, 37, 46]
@@ -424,9 +427,9 @@ def run(rep):
     # big shards first
     jobs.sort(key=lambda j: -(j[0]["n"] - j[0]["sl"] if j[1] or not j[0]["sl"] else 0))
     tally = {}
-    with mp.Pool(min(16, tlc.NCPU)) as pool:
-        aux_async = pool.map_async(_aux_stage1, [("MCAlphaEnc", enc_n, "EncoderSound", 4 if enc_n <= 4 else 8),
-                                                 ("MCAlphaPath", 8 if quick else 10, "DotRemovalMatchesRFC", 2)], chunksize=1)
+    with mp.Pool(JOBS) as pool:
+        aux_async = pool.map_async(_aux_stage1, [("MCAlphaEnc", enc_n, "EncoderSound", max(1, min(4, JOBS // 4))),
+                                                 ("MCAlphaPath", 8 if quick else 10, "DotRemovalMatchesRFC", max(1, min(2, JOBS // 8)))], chunksize=1)
         rnd_async = pool.map_async(_random_shard, [(rep.seed * 7919 + 17 * i + 1, per) for i in range(nrand // per)])
         outs = pool.map(_exhaustive_shard, jobs, chunksize=1)
         aux = aux_async.get()
